@@ -4,6 +4,7 @@ import (
 	"crypto/sha256"
 	"encoding/hex"
 	"fmt"
+	"os"
 	"sort"
 	"sync"
 	"sync/atomic"
@@ -38,6 +39,7 @@ type World struct {
 	Log    []Event
 	Step   int
 	start  time.Time
+	tickAt map[string]time.Duration
 	Tape   *Tape
 	// counters for evidence: name -> count
 	Counters map[string]int
@@ -75,6 +77,16 @@ func (w *World) Logf(kind, key, format string, args ...any) {
 func (w *World) Park(kind, key string, info any) any {
 	it := &Item{Kind: kind, Key: key, Info: info, ch: make(chan any)}
 	w.mu.Lock()
+	if kind == "lock" && IsTickerRole(key) {
+		// a ticker goroutine asks for the connection lock first thing after a tick: the first
+		// such request is at a tick instant, and all later ticks are whole intervals after it
+		if _, seen := w.tickAt[key]; !seen {
+			if w.tickAt == nil {
+				w.tickAt = map[string]time.Duration{}
+			}
+			w.tickAt[key] = time.Since(w.start)
+		}
+	}
 	id := it.ID()
 	if _, dup := w.parked[id]; dup {
 		w.seq[id]++
@@ -82,6 +94,9 @@ func (w *World) Park(kind, key string, info any) any {
 		id = it.ID()
 	}
 	w.parked[id] = it
+	if debugPark {
+		fmt.Fprintf(os.Stderr, "PARK step=%d t=%dns %s\n", w.Step, int64(time.Since(w.start)), id)
+	}
 	w.mu.Unlock()
 	return <-it.ch
 }
@@ -111,6 +126,20 @@ func (w *World) Release(it *Item, v any) {
 	w.Log = append(w.Log, Event{Step: w.Step, T: int64(time.Since(w.start)), Kind: "release", Key: it.ID()})
 	w.mu.Unlock()
 	it.ch <- v
+}
+
+// UntilNextTick returns how far the clock may advance before the ticker of the given goroutine
+// role fires again (0 if no tick of that role was seen yet), given the ticker interval.
+func (w *World) UntilNextTick(role string, interval time.Duration) time.Duration {
+	w.mu.Lock()
+	t1, ok := w.tickAt[role]
+	w.mu.Unlock()
+	if !ok || interval <= 0 {
+		return 0
+	}
+	now := time.Since(w.start)
+	next := t1 + ((now-t1)/interval+1)*interval
+	return next - now
 }
 
 // NextStep advances the step counter (called by the scheduler at each quiescent point).
@@ -165,6 +194,8 @@ func (w *World) Trace(max int) []string {
 	return out
 }
 
+var debugPark = os.Getenv("SIM_DEBUG_PARK") != ""
+
 // Violation is an oracle failure. Fingerprint = (Property, Invariant, Site).
 type Violation struct {
 	Property  string `json:"property"`
@@ -179,22 +210,27 @@ func (v *Violation) Fingerprint() string {
 
 func (v *Violation) Error() string { return v.Fingerprint() + ": " + v.Detail }
 
-// SleepChunked advances the fake clock by d in chunks shorter than tick (the smallest ticker
+// SleepChunked advances the fake clock by d in chunks no longer than tick (the smallest ticker
 // interval of the system under test) and stops early as soon as busy() reports that a ticker
-// goroutine is parked: at most one tick fires per call, so no tick ever queues up behind a parked
-// ticker goroutine (a queued tick would later tie with the goroutine's stop signal in a select
-// statement, whose choice Go does not let a test seed). wait must be synctest.Wait.
+// goroutine is parked: at most one tick fires per call. wait must be synctest.Wait.
+//
+// The harness must never wake at the very instant at which a timer of the system under test
+// fires: the two runtime timers may sit on different Ps, synctest.Wait can return between them,
+// and whether the system's goroutine ran before or after the next harness step would then depend
+// on the Go scheduler (seen as a self-test divergence between GOMAXPROCS 1 and 4: a keep-alive
+// tick due exactly at the end of a 10 s advance). Every timer of the system is armed at a harness
+// instant or at another timer's instant with a duration that is a whole number of microseconds,
+// and every sleep of the harness (Nap) is one nanosecond short of a whole number of
+// microseconds: after n sleeps (n < 1000 in any run) the harness is n ns short of every instant a
+// system timer can have.
 func SleepChunked(d, tick time.Duration, wait func(), busy func() bool) time.Duration {
 	var slept time.Duration
 	for d > 0 {
 		c := d
-		if tick > 0 && c >= tick {
-			c = tick - 1
+		if tick > 0 && c > tick {
+			c = tick
 		}
-		if c <= 0 {
-			c = 1
-		}
-		time.Sleep(c)
+		Nap(c)
 		slept += c
 		d -= c
 		wait()
@@ -203,6 +239,15 @@ func SleepChunked(d, tick time.Duration, wait func(), busy func() bool) time.Dur
 		}
 	}
 	return slept
+}
+
+// Nap is the only way a scenario advances the fake clock: d (a whole number of microseconds)
+// minus one nanosecond, see SleepChunked.
+func Nap(d time.Duration) {
+	if d > time.Nanosecond {
+		d -= time.Nanosecond
+	}
+	time.Sleep(d)
 }
 
 // current is the world lock-grant hooks park in. Hooks installed into the system under test are
